@@ -751,6 +751,7 @@ func (fv *funcVerifier) execRange(st *State, x *ast.RangeStmt, label string) {
 	idxName := "range_idx"
 	bindIdx := func(s *State, idx smt.Term) {
 		s.ghost[idxName+key] = idx
+		s.ghost["ridx"] = idx // index of the innermost enclosing range loop, for invariants over blank-identifier ranges
 		if keyVar != nil && (kind == "index" || kind == "int" || kind == "string") {
 			s.vars[keyVar] = idx
 		}
